@@ -518,6 +518,13 @@ def m_set(I, args, kwargs):
     return set(items)
 
 
+@model(__import__("functools").partial)
+def m_partial(I, args, kwargs):
+    from .interp import PartialVal
+
+    return PartialVal(args[0], args[1:], kwargs)
+
+
 @model(builtins.range)
 def m_range(I, args, kwargs):
     if not _sym(args):
